@@ -35,11 +35,13 @@ Inv_C05_Events(s) ==
         /\ es[Len(es)].info = OrderInfoOf(o)
 
 \* C07: a rejected request leaves balances, holds, borrowed, open orders and open loans untouched
-OpenLoansOf(s) == {[j |-> j, l |-> s.loans[j]] : j \in OpenLoanIdx(s)}
+OpenLoansOf(s) == {[j |-> j, sym |-> s.loans[j].sym, amount |-> s.loans[j].amount] : j \in OpenLoanIdx(s)}
 
+\* (stated on the observable projection of the orders, so that it can be judged on any implementation state)
+ObsOrders(s) == [i \in 1..Len(s.orders) |-> ObsOrder(s.orders[i])]
 Rejected_Unchanged(s, s2, c) ==
   ~c.ok => /\ s2.bal = s.bal /\ s2.hold = s.hold /\ s2.bor = s.bor
-           /\ s2.orders = s.orders
+           /\ ObsOrders(s2) = ObsOrders(s)
            /\ OpenLoansOf(s2) = OpenLoansOf(s)
 
 \* C05: monotone, final
@@ -47,7 +49,7 @@ Lifecycle_OK(s, s2) ==
   \A i \in 1..Len(s.orders) :
      LET o == s.orders[i]  o2 == s2.orders[i] IN
      /\ o2.filled >= o.filled
-     /\ (~IsOpen(o) => o2 = o)
+     /\ (~IsOpen(o) => ObsOrder(o2) = ObsOrder(o))
 
 \* market and stop orders are closed by the first bar of their pair after acceptance
 FillOrKill_OK(s2, c) ==
@@ -95,20 +97,28 @@ FillPx(o, bar) ==
     [] OTHER -> bar.o
 \* "dust": the traded quote amount would round to zero at the quote precision
 Dust(o, bar) == RHE((o.amount - o.filled) * FillPx(o, bar), PD(o.pair)) = 0
+\* "funds permitting" for a sell: the reservation covers the base amount, but the fee (e.g. a minimum fee larger than small
+\* proceeds) is paid from the proceeds plus whatever quote funds are available
+SellAffordable(s, o, bar) ==
+  LET q == RHE((o.amount - o.filled) * FillPx(o, bar), PD(o.pair)) IN
+  o.op = "sell" => q + Avail(s, QuoteOf(o.pair)) + o.holdRem[QuoteOf(o.pair)] >= FeeDelta(o.pair, o.qfilled, o.fee, q)
 MustComplete(s, o, bar) ==
   \/ (o.type = "market" /\ (o.op = "sell" \/ (s.last[o.pair] > 0 /\ bar.o <= s.last[o.pair])))
   \/ (o.type = "limit" /\ (IF o.op = "buy" THEN bar.l <= o.limit ELSE bar.h >= o.limit))
   \/ (o.type = "stop" /\ o.op = "sell" /\ bar.l <= o.stop)
-CompleteScope(s, c) == c.kind = "bar" /\ C.liqMode = "inf" /\ C.lendMode = "none" /\ Cardinality(OpenOrderIdx(s)) = 1
+\* (one open order of the bar's pair: it does not compete for the bar, and its own reservation pays for it -- open orders
+\* of other pairs are not touched by this bar)
+CompleteScope(s, c) == /\ c.kind = "bar" /\ C.liqMode = "inf" /\ C.lendMode = "none"
+                       /\ Cardinality({i \in OpenOrderIdx(s) : s.orders[i].pair = c.arg.p}) = 1
 Complete_OK(s, s2, c) ==
   CompleteScope(s, c) =>
     \A i \in OpenOrderIdx(s) : LET o == s.orders[i]  o2 == s2.orders[i]  bar == c.arg IN
-      (o.pair = bar.p /\ o.at < bar.t /\ MustComplete(s, o, bar) /\ ~Dust(o, bar)) => o2.state = "completed"
+      (o.pair = bar.p /\ o.at < bar.t /\ MustComplete(s, o, bar) /\ ~Dust(o, bar) /\ SellAffordable(s, o, bar)) => o2.state = "completed"
 \* the same for fills whose quote amount rounds to zero: the exchange ignores such fills (known finding KF-1)
 CompleteDust_OK(s, s2, c) ==
   CompleteScope(s, c) =>
     \A i \in OpenOrderIdx(s) : LET o == s.orders[i]  o2 == s2.orders[i]  bar == c.arg IN
-      (o.pair = bar.p /\ o.at < bar.t /\ MustComplete(s, o, bar) /\ Dust(o, bar)) => o2.state = "completed"
+      (o.pair = bar.p /\ o.at < bar.t /\ MustComplete(s, o, bar) /\ Dust(o, bar) /\ SellAffordable(s, o, bar)) => o2.state = "completed"
 
 \* C08: liquidity cap of the bar
 LiquidityCap_OK(s, s2, c) ==
